@@ -1,6 +1,6 @@
 """C20: transport adapters, decided with spec/Transport.tla and the real
 adapters driven through a scripted pubsub API / libp2p mocknet streams."""
-import json, os
+import json, os, re
 import vlib
 from vlib import log, Check, SEED
 
@@ -62,11 +62,63 @@ CHECK_DEADLOCK FALSE
     if not res.get('inconclusive') and not res.get('crashed'):
         ck.traces_validated += res.get('behaviours', 0)
     log('  transport: %d behaviours, %d steps, %d comparisons, %d violations' % (res.get('behaviours', 0), res.get('steps', 0), res.get('comparisons', 0), len(res['violations'])))
+    # pubsubraw over real libp2p gossipsub (mock network), free-running: its reports are recorded and validated against spec/TransportTrace.tla
+    raw_trace(ck, prop, 40 if thorough else 8, 60 if thorough else 30)
     return ck.finish()
+
+
+TT_CFG = ('TransportTrace.cfg', '''SPECIFICATION TraceSpec
+CONSTANTS Self = "me"
+POSTCONDITION TraceAccepted
+CHECK_DEADLOCK FALSE
+''')
+
+
+def validate_raw(trace_path, tag):
+    t = vlib.tlc_trace('TransportTrace.tla', TT_CFG, tag, trace_path)
+    m = re.search(r'The depth of the complete state graph search is (\d+)', t['out'])
+    t['line'] = int(m.group(1)) if m else None
+    return t
+
+
+def raw_trace(ck, prop, runs, steps):
+    tp = os.path.join(vlib.WORK, 'jobs', 'C20-raw-%d.ndjson' % os.getpid())
+    os.makedirs(os.path.dirname(tp), exist_ok=True)
+    inp = {'property': prop, 'seed': SEED, 'runs': runs, 'steps': steps, 'trace_out': tp}
+    res = vlib.run_vh('pubsubraw', inp, tag='C20-raw', timeout=900)
+    ck.add_harness(res, lambda v: {'command': 'pubsubraw', 'input': dict(inp, trace_out=''), 'violation': v}, 'pubsubraw')
+    lines = [l for l in open(tp)] if os.path.exists(tp) else []
+    if lines and not res.get('violations'):
+        t = validate_raw(tp, 'C20-raw-trace')
+        ck.add_tlc(t, 'trace validation of the pubsubraw adapter (%d events)' % len(lines))
+        if t['accepted']:
+            ck.traces_validated += res.get('traces', 0)
+            log('  pubsubraw: %d runs, %d events recorded, accepted by TransportTrace' % (res.get('traces', 0), len(lines)))
+        elif 'Postcondition' in t['out'] and t['line'] and t['line'] <= len(lines):
+            bad = lines[t['line'] - 1].strip()
+            v = {'property': prop, 'kind': 'trace', 'detail': 'event %d of the recorded trace is not a step the specification allows after the events before it: %s' % (t['line'], bad)}
+            ck.violations.append((None, v, {'command': 'transport-trace', 'trace': ''.join(lines)}))
+        else:
+            ck.inconclusive.append('trace validation of pubsubraw: TLC failed: %s' % t['out'][-500:])
+    elif not lines:
+        ck.inconclusive.append('pubsubraw recorded no trace')
+    ck.extra['pubsubraw_events'] = len(lines)
+    if os.path.exists(tp):
+        os.remove(tp)
 
 
 def replay(prop, path):
     p = json.load(open(path))
+    if p.get('command') == 'transport-trace':
+        tp = os.path.join(vlib.WORK, 'jobs', 'replay-raw.ndjson')
+        os.makedirs(os.path.dirname(tp), exist_ok=True)
+        open(tp, 'w').write(p['trace'])
+        t = validate_raw(tp, 'replay-raw')
+        if not t['accepted'] and 'Postcondition' in t['out']:
+            log('VIOLATION property=%s replay=%s' % (prop, path))
+            log('  kind=trace event %s of the recorded trace is not a step of TransportTrace' % t['line'])
+            return 1
+        return 0 if t['accepted'] else 2
     res = vlib.run_vh(p['command'], p['input'], tag='replay')
     vs = res.get('violations', [])
     for v in vs[:5]:
